@@ -138,7 +138,7 @@ def gen_case(rng, force_shape=None):
         fa, fb = rng.choice([0.4, 0.25, 0.6, 0.5]), rng.choice([0.6, 0.3, 0.75, 0.5])
         if b + fb < total and (impulse is None or impulse["t"] > a + 1):
             a, b = a + fa, b + fb
-    return {"kind": "burn", "no_end_time": shape == "zero_length" and rng.random() < 0.5, "impulse": impulse, "twin": twin, "start": start.isoformat(), "step": step, "n": n, "t_on": a, "t_off": b, "burn": kind, "vec": vec, "mag": rng.choice([-1, 1]) * mag, "second": second,
+    return {"kind": "burn", "no_end_time": shape == "zero_length" and rng.random() < 0.5, "impulse": impulse, "twin": twin, "start": start.isoformat(), "step": step, "n": n, "t_on": a, "t_off": b, "burn": kind, "vec": vec, "mag": rng.choice([-1, 1]) * mag, "second": second, "out_mult": rng.choice([1, 1, 1, 2, 3]),
             "model": rng.choice(["special_perturbations", "special_perturbations", "special_perturbations", "two_body"]), "shape": shape,
             "orbit": [rng.choice([6900.0, 7300.0, 12000.0, 42164.0]), rng.uniform(0, 120), rng.uniform(0, 360), rng.uniform(0, 360)]}
 
@@ -175,7 +175,7 @@ def build_cfg(case):
         evs.append({"scope": "agent_propagation", "scope_instance_id": TID, "start_time": sk.iso(start + timedelta(seconds=s2["t_on"])),
                     "end_time": sk.iso(start + timedelta(seconds=s2["t_off"])), "event_type": "finite_burn", "acc_vector": s2["vec"], "thrust_frame": case["burn"][-3:], "planned": False})
     return sk.scenario_cfg(start, start + timedelta(seconds=(case["n"] + 1) * case["step"]), case["step"], [sk.engine_cfg(1, tg, sn)], truth_only=True, model=case["model"],
-                           geopotential={"model": "egm96.txt", "degree": 2, "order": 0}, events=evs, integration="DOP853" if case["shape"] == "late_tail" else "RK45")
+                           geopotential={"model": "egm96.txt", "degree": 2, "order": 0}, events=evs, output_step=case["step"] * case.get("out_mult", 1), integration="DOP853" if case["shape"] == "late_tail" else "RK45")
 
 
 def _thrust(case, y):
